@@ -1,0 +1,51 @@
+//go:build verif
+
+// Contracts for the deductive verifier in /verif (govc). This file contains
+// comments only: with the build tag `verif` off the compiler never reads it,
+// with the tag on it adds no code. Syntax: see /verif/DESIGN.md section 3.
+
+package yang
+
+// ---------------------------------------------------------------------------
+// C15: numbers
+//
+//@ spec P10(k int) int = k <= 0 ? 1 : k == 1 ? 10 : k == 2 ? 100 : k == 3 ? 1000 : k == 4 ? 10000 : k == 5 ? 100000
+//@      : k == 6 ? 1000000 : k == 7 ? 10000000 : k == 8 ? 100000000 : k == 9 ? 1000000000 : k == 10 ? 10000000000
+//@      : k == 11 ? 100000000000 : k == 12 ? 1000000000000 : k == 13 ? 10000000000000 : k == 14 ? 100000000000000
+//@      : k == 15 ? 1000000000000000 : k == 16 ? 10000000000000000 : k == 17 ? 100000000000000000
+//@      : k == 18 ? 1000000000000000000 : 10000000000000000000
+//@ spec sval(n Number) int = n.Negative ? -n.Value : n.Value
+//@ spec val18(n Number) int = sval(n) * P10(18 - n.FractionDigits)
+//@ pred okNum(n Number) = n.FractionDigits <= 18
+//
+//@ func pow10 props C15
+//@   requires e <= 19
+//@   ensures  result == P10(e)
+//@   pure
+//@   safe
+//@   nowrap
+//@   loop 1
+//@     invariant 0 <= i && i <= e && out == P10(i)
+//@     decreases e - i
+//
+//@ func (Number).Trunc props C15
+//@   requires okNum(n)
+//@   ensures  result == n.Value / P10(n.FractionDigits)
+//@   pure
+//@   safe
+//
+//@ func (Number).frac props C15
+//@   requires okNum(n)
+//@   ensures  result == (n.Value % P10(n.FractionDigits)) * P10(18 - n.FractionDigits)
+//@   pure
+//@   safe
+//@   nowrap
+//
+//@ func (Number).Less props C15 C10
+//@   requires okNum(n) && okNum(m)
+//@   ensures  result == (val18(n) < val18(m))
+//@   ensures  n.FractionDigits == m.FractionDigits ==> result == (sval(n) < sval(m))
+//@   pure
+//@   safe
+//@   split n.FractionDigits in 0..18
+//@   split m.FractionDigits in 0..18
